@@ -207,7 +207,7 @@ def gen_v4_rewrite(rng, n):
             pkt = short_pkt(rng) if rng.random() < 0.04 else mk_pkt(rng, gen_items(rng, big=rng.random() < 0.1))
             cases.append("o82ins %s %s %s" % (pol, hx(bytes([82, 0]) if rng.random() < 0.03 else bytes([82]) + (lambda d: bytes([len(d)]) + d)(opt82(rng))), hx(pkt)))
         elif r < 0.40:
-            pkt = short_pkt(rng) if rng.random() < 0.04 else mk_pkt(rng, gen_items(rng))
+            pkt = short_pkt(rng) if rng.random() < 0.04 else mk_pkt(rng, gen_items(rng, big=rng.random() < 0.15))
             cases.append("o82strip " + hx(pkt))
         elif r < 0.62:
             code = rng.choice([51, 54, 58, 59, 51, 54, 1, 60, 0, 255, 82])
@@ -216,7 +216,7 @@ def gen_v4_rewrite(rng, n):
             if rng.random() < 0.04:
                 pkt = short_pkt(rng)
             else:
-                items = gen_items(rng, n82=rng.choice([0, 1]), target=tgt, tmode=tmode)
+                items = gen_items(rng, n82=rng.choice([0, 1]), target=tgt, tmode=tmode, big=rng.random() < 0.15)
                 tail = None
                 if tgt and tmode == "ok" and rng.random() < 0.2:  # target is the very last option, no END
                     items = [i for i in items if i[0] != tgt] + [(tgt, rb(rng, 4))]
@@ -241,7 +241,7 @@ def gen_v4_rewrite(rng, n):
             else:
                 tgt = rng.choice([51, 54, 58, 59])
                 tmode = rng.choice(["absent", "ok", "badlen", "dup", "dupbad"])
-                pkt = short_pkt(rng) if rng.random() < 0.04 else mk_pkt(rng, gen_items(rng, n82=0, target=tgt, tmode=tmode))
+                pkt = short_pkt(rng) if rng.random() < 0.04 else mk_pkt(rng, gen_items(rng, n82=0, target=tgt, tmode=tmode, big=rng.random() < 0.15))
                 lease = rng.choice([0, 1, 60, 3600, 86400, 613566756])
             cases.append("proxy %s %d %s" % (ip4tok(rng), lease, hx(pkt)))
         elif r < 0.91:
@@ -371,6 +371,10 @@ def gen_reply(rng, n):
             extra.append("%d,%s" % (tag, hx(rb(rng, l))))
         if rng.random() < 0.03 and not over:
             extra.append("%d,%s" % (43, hx(rb(rng, rng.choice([256, 257, 300, 511, 512])))))
+        if rng.random() < 0.08:   # raw option colliding with one the server emits itself (config validation denies these)
+            extra.insert(rng.randint(0, len(extra)), "%d,%s" % (rng.choice([53, 54, 51, 1, 3, 6, 121, 82, 0, 255]), hx(rb(rng, rng.choice([1, 4, 8])))))
+        if rng.random() < 0.05 and extra:   # the same raw tag twice
+            extra.append(extra[0])
         xid = rng.choice([0, 1, M32 - 1, rng.randrange(M32)])
         ci = rng.choice(["nil", "nil", hx(bytes(4)), ip4tok(rng)])
         mt = rng.choice([2, 5, 6])
@@ -385,7 +389,11 @@ def gen_reply(rng, n):
             routes = []
             for _ in range(nr):
                 ones = rng.choice([0, 1, 7, 8, 9, 16, 24, 25, 31, 32]) if nr < 28 else 32
-                routes.append("%d,%s,%s" % (ones, hx(ip4(rng)), ip4tok(rng, 0.05)))
+                dst = hx(ip4(rng))
+                if nr < 28 and rng.random() < 0.12:   # non-IPv4 / mapped / nil destinations, prefix beyond 32
+                    dst = rng.choice(["nil", hx(rb(rng, 16)), hx(bytes(10) + b"\xff\xff" + ip4(rng)), hx(rb(rng, 5)), hx(bytes(16))])
+                    ones = rng.choice([0, 0, 8, 1, 32, 33, 40, 128])
+                routes.append("%d,%s,%s" % (ones, dst, ip4tok(rng, 0.05)))
             router = rng.choice(["nil", ip4tok(rng, 0.05), ip4tok(rng, 0.05)])
             sid = rng.choice(["nil", ip4tok(rng, 0.05), ip4tok(rng, 0.05)])
             cases.append(" ".join(["resolved", str(xid), ci, hx(hw), str(mt), ip4tok(rng, 0.1), router, sid, hx(rng.choice(masks)),
